@@ -155,5 +155,5 @@ Example C15_example_offline :
   let h := [Emit 1 false false 0; Emit 2 true false 0; MgrOpen; Emit 3 false true 1;
             Recv 9 (Some 5%N) [HAckSync]; ConnectReply; Emit 4 true false 0]%N in
   fst (run init h) =
-  [OConnect; OCall 9 0; OAck 5; OFrame 1 0 None; OFrame 3 0 (Some 0%N); OFrame 3 1 (Some 0%N); OFrame 4 0 None]%N.
+  [OConnect; OCall 9 0; OFrame 1 0 None; OFrame 3 0 (Some 0%N); OFrame 3 1 (Some 0%N); OAck 5; OFrame 4 0 None]%N.
 Proof. vm_compute. reflexivity. Qed.
